@@ -1045,7 +1045,9 @@ theorem partition_of_check (M : List MapRow) (labels : List (Nat × Nat × Nat))
   have e1 : k1 = keyOf labels m1 := inGroup_key labels k1 m1 hg1
   have e2 : k2 = keyOf labels m2 := inGroup_key labels k2 m2 hg2
   unfold partitionCheck at h
-  have h12 := List.all_eq_true.mp (List.all_eq_true.mp h m1 hm1) m2 hm2
+  have hmem : ∀ m, m ∈ M → grp M labels (keyOf labels m) ∈ ((M.map (keyOf labels)).eraseDups).map (grp M labels) :=
+    fun m hm => List.mem_map.mpr ⟨keyOf labels m, List.mem_eraseDups.mpr (List.mem_map.mpr ⟨m, hm, rfl⟩), rfl⟩
+  have h12 := List.all_eq_true.mp (List.all_eq_true.mp h _ (hmem m1 hm1)) _ (hmem m2 hm2)
   rw [← e1, ← e2] at h12
   simp only [Bool.or_eq_true, Bool.not_eq_true', List.any_eq_false, List.all_eq_true, List.contains_iff_mem] at h12
   rcases h12 with h0 | h1
